@@ -57,6 +57,16 @@ theorem concat_output (maxHeader : Nat) (r1 : Option (List Cid)) (b1 : List Bloc
       = .ok (payload r1 (b1 ++ rest.flatMap (·.2))) :=
   concat_v1 maxHeader r1 b1 rest h1 hrest
 
+/-- `car list`: on every valid CARv1, and on every CARv2 laid out around it (any paddings, with or without an
+    index), the listing is exactly the CIDs of the sections, in order, repeats included. -/
+theorem list_output (H : HashFn) (dp ip : Nat) (roots : Option (List Cid)) (bs : List Block) (hasIdx fi : Bool)
+    (index : Bytes) (ok : PayloadOK H {} roots bs) (lok : LayoutOK dp ip (payload roots bs).length) :
+    listCmd H (payload roots bs) = .ok (bs.map (·.cid)) ∧
+    listCmd H (layoutV2 dp ip (payload roots bs) hasIdx fi index) = .ok (bs.map (·.cid)) := by
+  constructor
+  · simp [listCmd, scanBlockReader_v1 H {} true roots bs ok]
+  · simp [listCmd, scanBlockReader_v2 H {} true dp ip roots bs hasIdx fi index ok (by decide) lok]
+
 /-- (3) `car detach-index` emits exactly the bytes from the index offset on. -/
 theorem detach_output (maxHeader : Nat) (src p : Bytes) (hd : V2Header)
     (h : openPayload maxHeader src = .ok (2, p, hd)) (hi : hd.indexOffset ≠ 0) :
